@@ -156,7 +156,7 @@ class C32(object):
         # paths: hits, near misses
         finds = []
         paths = sorted({p for _, p, _ in order})
-        deep = False
+        deep = custom_deep = False
         for _ in range(min(6, len(paths) + 2)):
             p = rnd.choice(paths)
             kind = rnd.choice(['hit', 'hit', 'attr', 'attrmiss', 'wrongtail', 'prefix', 'extra'])
@@ -174,10 +174,15 @@ class C32(object):
             if ' ' in p or not p: continue
             if attr is not None and (val == '' or ' ' in val or attr == ''):
                 attr = val = None
-            finds.append((p, attr, val))
+            # the path delimiter is a parameter of find(): the default '/' or another character that occurs in no tag of the document
+            delim = rnd.choice(['/', '/', '/', '|', '!', '~', '.', ':'])
+            if any(delim in n['tag'] for _, _, n in order) or delim in p.replace('/', ''):
+                delim = '|'
+            if delim != '/' and p.count('/') >= 2: custom_deep = True
+            finds.append((p, attr, val, delim))
         cmd = 'xmlparse 1 %s' % fixref.hexs(doc)
-        for p, a, v in finds:
-            cmd += ' %s %s %s' % (fixref.hexs(p), fixref.hexs(a) if a is not None else '-', fixref.hexs(v) if a is not None else '-')
+        for p, a, v, dl in finds:
+            cmd += ' %s %s %s %d' % (fixref.hexs(p.replace('/', dl)), fixref.hexs(a) if a is not None else '-', fixref.hexs(v) if a is not None else '-', ord(dl))
         ans = ex.call(cmd)
         if 'x' in ans or ans.get('null'):
             raise Violation('C32: parser rejected a well-formed document: %r\n%s' % (ans.get('x'), doc))
@@ -207,8 +212,9 @@ class C32(object):
             for k in g['kids']: collect(k)
         collect(ans['tree'])
         seq2idx = {s: i + 1 for i, s in enumerate(seqs)}
-        for (p, a, v), f in zip(finds, ans['finds']):
+        for (p, a, v, dl), f in zip(finds, ans['finds']):
             want = model_find(root, p, a, v)
+            if dl != '/': p = p.replace('/', dl) + ' [delimiter %r]' % dl
             got = sorted(seq2idx.get(s, -s) for s in f['set'])
             if got != want:
                 raise Violation('C32: find(%r%s) returned elements %r (pre-order indices), reference walk gives %r\n%s' % (
@@ -218,7 +224,7 @@ class C32(object):
                 raise Violation('C32: find-first(%r%s) returned %r, reference walk gives %r\n%s' % (p, ', %r=%r' % (a, v) if a else '', first, want, doc))
         amp_ref = any('&' in s and any(t in s for t in ('lt;', 'gt;', 'amp;', 'quot;', 'apos;', '#')) for _, _, n in order
                       for s in list(n['attrs'].values()) + ([n['text']] if n['text'] else []))
-        return {'nontrivial': amp_ref or deep, 'classes': ['amp_then_reference'] * amp_ref + ['deep_find_with_attr'] * deep + ['nodes:%d' % min(len(order) // 5 * 5, 30)],
+        return {'nontrivial': amp_ref or deep, 'classes': ['amp_then_reference'] * amp_ref + ['deep_find_with_attr'] * deep + ['deep_find_custom_delimiter'] * custom_deep + ['nodes:%d' % min(len(order) // 5 * 5, 30)],
                 'key': doc, 'sample': {'document': doc[:600]}}
 
 
